@@ -258,3 +258,131 @@ func TimerReset(rt *time.Timer, d time.Duration) bool {
 	arm(s, tm, d)
 	return active
 }
+
+// ---- tickers -----------------------------------------------------------------------------
+
+// A ticker is a daemon task: sleep one period, deliver (dropping the tick if the channel is
+// full, as the runtime does), repeat until stopped.  A ticker nobody listens to never moves
+// the clock, and ticker tasks are never reported as left behind.
+type simTicker struct {
+	rt      *time.Ticker
+	ch      chan time.Time
+	period  int64
+	stopped bool
+	gen     int
+}
+
+var tickerTable []*simTicker
+
+//go:norace
+func tickerLookup(rt *time.Ticker) *simTicker {
+	for i := len(tickerTable) - 1; i >= 0; i-- {
+		if tickerTable[i].rt == rt {
+			return tickerTable[i]
+		}
+	}
+	return nil
+}
+
+//go:norace
+func startTicker(s *Sim, tk *simTicker) {
+	if s.aborted {
+		panic(abortPanic{})
+	}
+	tk.gen++
+	gen := tk.gen
+	child := &task{resume: make(chan resumeMsg, 1), spawnSite: -3, name: "ticker", timer: true, daemon: true, tickCh: chanID(tk.ch)}
+	go taskMain(s, child, func() { tickerBody(s, tk, gen) })
+	s.steps++
+	s.timersArmed++
+	s.call(request{kind: reqSpawn, t: s.current, child: child, site: -3})
+}
+
+func tickerBody(s *Sim, tk *simTicker, gen int) {
+	for {
+		sleepUntil(s, sleepDeadline(s, tickerPeriod(tk)))
+		if !tickerLive(s, tk, gen) {
+			return
+		}
+		Select(0, true, CaseSend((chan<- time.Time)(tk.ch), time.Unix(0, simEpoch+SimNanos()).UTC()))
+	}
+}
+
+//go:norace
+func tickerPeriod(tk *simTicker) int64 { return tk.period }
+
+//go:norace
+func tickerLive(s *Sim, tk *simTicker, gen int) bool {
+	if tk.stopped || tk.gen != gen {
+		return false
+	}
+	s.timersFired++
+	return true
+}
+
+// NewTicker replaces time.NewTicker(d).
+func NewTicker(d time.Duration) *time.Ticker {
+	s := getCur()
+	if s == nil {
+		return time.NewTicker(d)
+	}
+	if d <= 0 {
+		panic("non-positive interval for NewTicker")
+	}
+	rt := time.NewTicker(farAway)
+	tk := &simTicker{rt: rt, ch: *(*chan time.Time)(unsafe.Pointer(&rt.C)), period: int64(d)}
+	tickerRegister(tk)
+	startTicker(s, tk)
+	return rt
+}
+
+//go:norace
+func tickerRegister(tk *simTicker) { tickerTable = append(tickerTable, tk) }
+
+// Tick replaces time.Tick(d).
+func Tick(d time.Duration) <-chan time.Time {
+	if getCur() == nil {
+		return time.Tick(d)
+	}
+	if d <= 0 {
+		return nil
+	}
+	return NewTicker(d).C
+}
+
+// TickerStop replaces t.Stop() for a *time.Ticker.
+func TickerStop(rt *time.Ticker) {
+	if getCur() != nil {
+		if tk := tickerLookup(rt); tk != nil {
+			tickerSetStopped(tk)
+		}
+	}
+	rt.Stop()
+}
+
+//go:norace
+func tickerSetStopped(tk *simTicker) { tk.stopped = true }
+
+// TickerReset replaces t.Reset(d) for a *time.Ticker.
+func TickerReset(rt *time.Ticker, d time.Duration) {
+	s := getCur()
+	tk := tickerLookup(rt)
+	if s == nil || tk == nil {
+		rt.Reset(d)
+		return
+	}
+	if d <= 0 {
+		panic("non-positive interval for Ticker.Reset")
+	}
+	tickerRearm(tk, int64(d))
+	startTicker(s, tk)
+}
+
+//go:norace
+func tickerRearm(tk *simTicker, d int64) {
+	tk.period = d
+	tk.stopped = false
+}
+
+//go:norace
+func resetTickers() { tickerTable = nil }
